@@ -417,8 +417,10 @@ def spreadsheet_case(draw):
                 else:
                     row.append(gen_hed.render(draw(gen_tab.template(VERSION, used, max_depth=1, max_children=2))))
         rows.append([c.replace('"', "q").replace("\t", " ") for c in row])
+    headerless = draw(st.integers(0, 3)) == 0
     return {"header": header, "rows": rows, "tag_columns": names, "prefix": prefix,
-            "by_number": draw(st.booleans()), "xlsx": draw(st.integers(0, 3)) == 0}
+            "by_number": draw(st.booleans()) or headerless, "xlsx": draw(st.integers(0, 3)) == 0,
+            "headerless": headerless, "blank_na": draw(st.booleans())}
 
 
 _EMPTY_BY_COMMA = [re.compile(p) for p in (r",\s*,", r"\(\s*,", r",\s*\)", r"^\s*,", r",\s*$")]
@@ -436,7 +438,10 @@ def oracle_spreadsheet(case):
     if case["prefix"]:
         key = header.index("label_col") if case["by_number"] else "label_col"
         pre = {key: "Label/"}
-    ctx = f"header={header} rows={rows} tag_columns={tag_cols} prefix={pre} xlsx={case['xlsx']}"
+    headerless = case.get("headerless", False)
+    first_row = 1 if headerless else 2          # 1-based file row of the first data row
+    colname = (lambda h: header.index(h)) if headerless else (lambda h: h)    # how the library names a column
+    ctx = f"header={header} rows={rows} tag_columns={tag_cols} prefix={pre} xlsx={case['xlsx']} headerless={headerless}"
     tmp = None
     try:
         if case["xlsx"] and not any(_XLSX_ILLEGAL.search(c) for r in rows for c in r):
@@ -445,13 +450,21 @@ def oracle_spreadsheet(case):
             path = os.path.join(tmp, "sheet.xlsx")
             wb = openpyxl.Workbook()
             ws = wb.active
-            ws.append(header)
+            if not headerless:
+                ws.append(header)
             for r in rows:
-                ws.append(r)
+                # an n/a cell may simply be left empty in a sheet
+                # (not in the last column of a sheet without header row: the sheet's width is all that declares it)
+                ws.append([(None if (c == "n/a" and case.get("blank_na") and not (headerless and k == len(r) - 1))
+                            else c) for k, c in enumerate(r)])
             wb.save(path)
-            inp = SpreadsheetInput(path, tag_columns=tag_cols, column_prefix_dictionary=pre, name="sheet")
+            inp = SpreadsheetInput(path, tag_columns=tag_cols, column_prefix_dictionary=pre, name="sheet",
+                                   has_column_names=not headerless)
         else:
-            inp = SpreadsheetInput(io.StringIO(gen_tab.to_tsv({"header": header, "rows": rows})), file_type=".tsv",
+            text = gen_tab.to_tsv({"header": header, "rows": rows})
+            if headerless:
+                text = text.split("\n", 1)[1]
+            inp = SpreadsheetInput(io.StringIO(text), file_type=".tsv", has_column_names=not headerless,
                                    tag_columns=tag_cols, column_prefix_dictionary=pre, name="sheet")
         issues = inp.validate(hedenv.schema(VERSION), name="sheet")
     except Exception as exc:  # noqa
@@ -468,7 +481,7 @@ def oracle_spreadsheet(case):
             by_row.setdefault(i["ec_row"], []).append(i)
     any_fault = False
     for r, row in enumerate(rows):
-        file_row = r + 2
+        file_row = r + first_row
         got = Counter(i["code"] for i in by_row.get(file_row, []))
         cells = {}
         for h, c in zip(header, row):
@@ -488,7 +501,7 @@ def oracle_spreadsheet(case):
         if any(errs.values()):
             any_fault = True
             for h, e in errs.items():
-                col_got = Counter(i["code"] for i in by_row.get(file_row, []) if i.get("ec_column") == h)
+                col_got = Counter(i["code"] for i in by_row.get(file_row, []) if i.get("ec_column") == colname(h))
                 for code in e:
                     if code not in got:
                         out.bad(f"spreadsheet-cell-error-missing:{code}", f"row {file_row} column {h}: {dict(e)} vs "
@@ -515,11 +528,12 @@ def oracle_spreadsheet(case):
             out.bad("spreadsheet-row-verdict-differs:" + "+".join(sorted(set((got - exp) | (exp - got)))),
                     f"row {file_row}: file {dict(got)} string-level {dict(exp)} for {joined!r}; {ctx}")
     for i in issues:
-        if i.get("ec_row") is not None and not (2 <= i["ec_row"] <= len(rows) + 1):
+        if i.get("ec_row") is not None and not (first_row <= i["ec_row"] <= len(rows) + first_row - 1):
             out.bad("spreadsheet-row-label-out-of-range", f"{i['code']} ec_row={i['ec_row']}; {ctx}")
     out.nontrivial = len(rows) >= 2 and (any_fault or len(case["tag_columns"]) >= 2)
     out.classes = tuple(c for c, ok in (("xlsx", case["xlsx"]), ("prefix-column", case["prefix"]),
-                                        ("columns-by-number", case["by_number"]), ("faulty-cell", any_fault)) if ok)
+                                        ("columns-by-number", case["by_number"]), ("faulty-cell", any_fault),
+                                        ("no-header-row", headerless)) if ok)
     return out
 
 
